@@ -73,6 +73,12 @@ func runCase(c *Case) (*outcome, error) {
 	time.Sleep(time.Duration(c.DelayUs) * time.Microsecond)
 
 	timeout := time.Duration(c.TimeoutMs) * time.Millisecond
+	// how long the driver waits for Run / Shutdown to return before it calls it a hang; without a deadline
+	// they return once the last script has left (scripts give up after patience())
+	retLimit := timeout + 8*time.Second
+	if c.TimeoutMs == 0 {
+		retLimit = cr.patience() + 24*time.Second
+	}
 	shutRet := make(chan error, 1)
 	closeB := func() {
 		cr.log.Add("CC", 0)
@@ -115,7 +121,10 @@ func runCase(c *Case) (*outcome, error) {
 		cr.begun = true
 		cr.log.Add("SC", 0)
 		cr.dialMu.Unlock()
-		ctx, cancel := context.WithTimeout(context.Background(), timeout)
+		ctx, cancel := context.WithCancel(context.Background()) // timeout 0: a context that is never done
+		if c.TimeoutMs > 0 {
+			ctx, cancel = context.WithTimeout(context.Background(), timeout)
+		}
 		defer cancel()
 		go func() { shutRet <- cr.mp.Shutdown(ctx) }()
 		if c.Op == "shutdown+close" {
@@ -139,8 +148,8 @@ func runCase(c *Case) (*outcome, error) {
 				cr.note("Run returned %v, want context.Canceled", e)
 			}
 			out.HaveRet = true
-		case <-time.After(timeout + 8*time.Second):
-			cr.note("Run did not return within the shutdown timeout + 8s")
+		case <-time.After(retLimit):
+			cr.note("Run did not return within %v of the cancellation (shutdown timeout %v)", retLimit, timeout)
 			out.Result = "run:hang"
 		}
 		cr.setKnown()
@@ -162,8 +171,8 @@ func runCase(c *Case) (*outcome, error) {
 				out.Result = "err:" + e.Error()
 				cr.note("Shutdown returned %v: neither nil nor the context's error", e)
 			}
-		case <-time.After(timeout + 8*time.Second):
-			cr.note("Shutdown did not return within its context's deadline + 8s")
+		case <-time.After(retLimit):
+			cr.note("Shutdown did not return within %v of the call (context deadline %v)", retLimit, timeout)
 			out.Result = "hang"
 		}
 		cr.setKnown()
@@ -227,6 +236,10 @@ func runCase(c *Case) (*outcome, error) {
 	}
 	if c.Op != "close" {
 		evs = withDeadline(evs, callOp, timeout)
+		if c.TimeoutMs == 0 {
+			// configuration marker: the context handed to Shutdown never expires (the model starts from initNoLimit)
+			evs = append([]*Event{{Op: "NL"}}, evs...)
+		}
 	}
 	out.History = evs
 	if e := find(evs, callOp); e != nil {
@@ -306,6 +319,9 @@ func evaluate(ctx *core.Ctx, c *Case, out *outcome) {
 	}
 	// 3. clauses that need the clock (generous one-sided bounds) or the socket state
 	timeout := time.Duration(c.TimeoutMs) * time.Millisecond
+	if c.TimeoutMs == 0 {
+		timeout = 24 * time.Hour // no limit
+	}
 	for _, n := range out.Notes {
 		ctx.SpecFail("harness observation: "+noteClause(n), "", doc, h, n)
 	}
@@ -332,6 +348,11 @@ func evaluate(ctx *core.Ctx, c *Case, out *outcome) {
 					fmt.Sprintf("all connections had finished %v after the call, Shutdown still returned the context's error at %v", finishedAt-out.CallAt, out.RetAt-out.CallAt))
 			}
 			if c.Kind == "a" && out.RetAt > out.CallAt+timeout-100*time.Millisecond {
+				ctx.SpecFail("Shutdown reports success once every connection has finished (the counter returns to zero)", "", doc, h,
+					fmt.Sprintf("all connections had finished %v after the cancel, Run returned only at %v (shutdown timeout %v)", finishedAt-out.CallAt, out.RetAt-out.CallAt, timeout))
+			}
+			if c.Kind == "a" && timeout >= 15*time.Second && out.RetAt > finishedAt+5*time.Second && out.RetAt > out.CallAt+5*time.Second {
+				// no deadline, or a distant one: Shutdown polls the counter at least every 500 ms
 				ctx.SpecFail("Shutdown reports success once every connection has finished (the counter returns to zero)", "", doc, h,
 					fmt.Sprintf("all connections had finished %v after the cancel, Run returned only at %v (shutdown timeout %v)", finishedAt-out.CallAt, out.RetAt-out.CallAt, timeout))
 			}
@@ -398,6 +419,8 @@ func Run(ctx *core.Ctx) {
 		"also Close alone and Close during Shutdown's wait) with 1-32 scripted connections in the phases accept / TLS hello withheld / idle / partial head / " +
 		"request at a slow origin / response being written to a slow reader / CONNECT dial / tunnel, clients that vanish, requests and connections made after " +
 		"closing is known; plain and TLS listeners; the shutdown placed when all scripts reached their phase (+0-60 ms) or racing their start (+0-10 ms); " +
+		"plus the shutdown-timeout matrix {0 = no limit, shorter than the in-flight work, long} x {slow origin, large body to a slow reader, open tunnel} on rigs a, b " +
+		"and on forwarder.HTTPServer (rig s); " +
 		"non-trivial = at least one connection is in a phase other than idle when the shutdown is placed; distinct = distinct case scripts")
 	for _, raw := range core.LoadCorpus(ctx.Root, "C11") {
 		Replay(ctx, raw)
@@ -429,6 +452,18 @@ func Run(ctx *core.Ctx) {
 		c := gen(r)
 		jobs <- c
 	}
+	// the shutdown-timeout matrix (matrix.go): {no limit, short, long} x {slow origin, slow reader, tunnel, mixes}
+	// on rig a, a slice of it on rig b, and the API server (rig s); queued before the cheap race batches so
+	// that its second-long cases overlap with them
+	for i := 0; i < ctx.N(15, 150); i++ {
+		jobs <- genMatrix(ctx.Rng.Sub(), "a", i)
+	}
+	for i := 0; i < ctx.N(3, 45); i++ {
+		jobs <- genMatrix(ctx.Rng.Sub(), "b", i*4) // i*4: class i%3, work set varies
+	}
+	for i := 0; i < ctx.N(6, 45); i++ {
+		jobs <- genServer(ctx.Rng.Sub(), i)
+	}
 	for i := 0; i < ctx.N(32, 400); i++ {
 		jobs <- &Case{Kind: "c", Trials: 250, MicroSeed: ctx.Rng.U64()}
 	}
@@ -441,6 +476,12 @@ func Run(ctx *core.Ctx) {
 func runAndEvaluate(ctx *core.Ctx, c *Case, ch *child) *child {
 	if c.Kind == "c" {
 		return runMicroCase(ctx, c, ch)
+	}
+	if c.Kind == "s" {
+		return runServerAndEvaluate(ctx, c, ch)
+	}
+	if c.Matrix != "" {
+		ctx.Count("matrix/" + c.Kind + "/" + c.Matrix + "/" + c.workLabel())
 	}
 	nontrivial := false
 	for _, s := range c.Conns {
@@ -480,6 +521,31 @@ func runAndEvaluate(ctx *core.Ctx, c *Case, ch *child) *child {
 	countPlacements(ctx, c, out)
 	evaluate(ctx, c, out)
 	ctx.Sample(caseDoc{Case: c, Outcome: out})
+	return ch
+}
+
+// runServerAndEvaluate runs one API-server case (rig s) in the child and evaluates it.
+func runServerAndEvaluate(ctx *core.Ctx, c *Case, ch *child) *child {
+	if ch == nil {
+		var err error
+		if ch, err = startChild(); err != nil {
+			core.Fatalf("C11: cannot start the child process: %v", err)
+		}
+	}
+	ctx.Case(c.key(), true)
+	ctx.Count("rig/s/cases")
+	ctx.Count("matrix/s/" + c.Matrix + "/" + c.workLabel())
+	rep, err, died, detail := ch.ask(c)
+	if died {
+		ctx.Crash("the process survives a shutdown (no crash, no deadlock)", "", caseDoc{Case: c}, detail)
+		return nil
+	}
+	if err != nil || rep.Server == nil {
+		ctx.Crash("API server starts with a valid configuration", "", caseDoc{Case: c}, fmt.Sprint(err))
+		return ch
+	}
+	evaluateServer(ctx, c, rep.Server)
+	ctx.Sample(map[string]any{"case": c, "observed": rep.Server})
 	return ch
 }
 
